@@ -156,6 +156,58 @@ def sweep(f, cells, what, res, detail):
     return None
 
 
+def edited_ruleset(t, res, wr, flag_args, skip_case):
+    """the ruleset restricted with the shipped edit_rules.py (structures removed, the rest NOT renormalised): still a
+    ruleset, so 'exactly N words', 'every word in the non-Markov language' and reproducibility must hold (the distribution
+    clause is not judged: the base probabilities no longer sum to 1)"""
+    from . import tools
+    keep = t.sample(list("ADOKYX"), t.between(2, 5))
+    _text, exc = tools.run_tool("edit_rules", ["-r", "R", "--copy", "RE", "--terminal_set", ",".join(keep)])
+    if exc:
+        return
+    rdir = os.path.join(wr, "Rules", "RE")
+    try:
+        ref = RefRuleset(rdir, skip_brute=True, skip_case=skip_case)
+    except Exception:
+        return
+    if not ref.base:
+        return
+    lang = set()
+    size = 0
+    for b in ref.base:
+        for idx in itertools.product(*[range(len(ref.vars[r])) for r in b["replacements"]]):
+            lang.update(ref.expand(tuple(zip(b["replacements"], idx))))
+            size += 1
+            if size > 3000:
+                return
+    res.faults["ruleset_restricted_with_edit_rules"] += 1
+    flag_args = [f for f in flag_args if f != "--skip_brute"]
+    for mode in ("random_walk", "honeywords"):
+        N = t.between(1, 25)
+        outs = []
+        for rep in range(2 if mode == "random_walk" else 1):
+            text, seam, r = c09.run_proc(["-r", "RE", "-s", "S", "--mode", mode, "--limit", str(N)] + flag_args,
+                                         mode_rng=None if mode == "random_walk" else c09.SimRandom(t.draw(1 << 20)))
+            if r.exc:
+                if "IndexError" in r.exc and any("M" in s for s, _ in ref.raw_base):
+                    return              # (a walk that ends in a Markov-only remainder: the D13 territory, judged in the main part)
+                res.violate("C16", "run_raised_before_N_words", {"mode": mode, "limit": N, "ruleset": "edited", "exception": r.exc[-500:]})
+                return
+            lines = text.split("\n")[:-1] if text.endswith("\n") else text.split("\n")
+            if len(lines) != N:
+                res.violate("C16", "limit_not_exact", {"mode": mode, "limit": N, "written": len(lines), "ruleset": "restricted with edit_rules",
+                                                       "first_lines": lines[:3]})
+                return
+            bad = [w for w in lines if w not in lang]
+            if bad:
+                res.violate("C16", "word_outside_language", {"mode": mode, "word": bad[0], "ruleset": "restricted with edit_rules"})
+                return
+            outs.append(text)
+        if len(outs) == 2 and outs[0] != outs[1]:
+            res.violate("C16", "random_walk_not_reproducible", {"ruleset": "restricted with edit_rules"})
+            return
+
+
 def run_one(tape, tier, prop):
     res = RunResult()
     t = tape
@@ -358,6 +410,8 @@ def run_one(tape, tier, prop):
                     res.violate("C16", "random_walk_not_reproducible", {"first": outs[0][:80], "second": outs[1][:80]})
                 elif outs[0].startswith("EXC:"):
                     res.violate("C16", "run_raised_before_N_words", {"mode": "random_walk", "exception": outs[0]})
+    if not res.violations and len(ref.raw_base) >= 2 and t.chance(1, 4):
+        edited_ruleset(t, res, wr, flag_args if not only_m else [], skip_case)
     nstruct = len(ref.base)
     multi = any(len(g) >= 2 for g in ref.vars.values())
     res.nontrivial = digest_of([spec["base"], spec["vars"], skip_brute, skip_case]) if (nstruct >= 2 and multi) else None
